@@ -1207,7 +1207,7 @@ fn gen_deal(r: &mut Prng, w: &World, s: &Snap, epoch: i64) -> PDeal {
     // ... with at most one defect or boundary mutation
     if r.chance(24) {
         match r.below(20) {
-            0 => d.provider = P_STRANGER,
+            0 => d.provider = if r.chance(60) { P_STRANGER } else { P_NOBODY },
             1 => d.size = *r.pick(&[100u64, 2047, 64]),
             2 => d.start = epoch - 1,
             3 => { d.end = d.start + MIN_DUR - 1 }
@@ -1653,6 +1653,13 @@ fn main() {
         if mode == "sched" {
             if let Some((f, v)) = &o.fin {
                 *fate_hist.entry(f.clone()).or_insert(0) += 1;
+                // client_refund_exact / provider_collateral_fate on the lock side: once the deal is gone
+                // nothing of it stays locked for either party
+                if prop == "C07" && (v[1] != 0 || v[3] != 0) {
+                    path_fail.push(json!({"class": "lock-not-released", "step": 0,
+                        "what": [format!("after the deal ended ({}) the client still has {} and the provider {} locked", f, v[1], v[3])],
+                        "case": o.done.clone()}));
+                }
                 match by_fate.get(f) {
                     None => { by_fate.insert(f.clone(), (*v, o.done.clone())); }
                     Some((v0, c0)) => {
